@@ -817,4 +817,195 @@ theorem first_loop_eq (cfg : Config) (cur : Nat) (vals : List Validator) :
   rw [h1, h2, setEligibility_eq]
   exact first_loop_prefix cfg cur vals vals.length
 
+/-! ### the activation queue after the first loop -/
+
+/-- relation between a registry and what the first loop makes of it, as far as the activation queue can see -/
+def QueueView (cur : Nat) (vals w : List Validator) : Prop :=
+  w.length = vals.length ∧
+  ∀ (i : Nat) (v v' : Validator), vals[i]? = some v → w[i]? = some v' →
+    v'.activation_epoch = v.activation_epoch ∧
+    (v'.activation_eligibility_epoch = v.activation_eligibility_epoch ∨
+      (v.activation_eligibility_epoch = FAR_FUTURE_EPOCH ∧ v'.activation_eligibility_epoch = cur + 1))
+
+theorem queueView_set (cur : Nat) (vals w : List Validator) (j : Nat) (u u' : Validator) (h : QueueView cur vals w)
+    (hu : w[j]? = some u) (hae : u'.activation_epoch = u.activation_epoch)
+    (haee : u'.activation_eligibility_epoch = u.activation_eligibility_epoch ∨
+      (u.activation_eligibility_epoch = FAR_FUTURE_EPOCH ∧ u'.activation_eligibility_epoch = cur + 1)) :
+    QueueView cur vals (w.set j u') := by
+  refine ⟨by simp [h.1], ?_⟩
+  intro i v v' hv hv'
+  rw [List.getElem?_set] at hv'
+  by_cases hji : j = i
+  · subst hji
+    obtain ⟨hj, _⟩ := List.getElem?_eq_some_iff.mp hu
+    simp only [↓reduceIte, hj, Option.some.injEq] at hv'
+    try subst hv'
+    obtain ⟨h1, h2⟩ := h.2 j v u hv hu
+    refine ⟨by rw [hae, h1], ?_⟩
+    rcases haee with e | ⟨e1, e2⟩
+    · rw [e]; exact h2
+    · right
+      refine ⟨?_, e2⟩
+      rcases h2 with e3 | ⟨e3, _⟩
+      · rw [← e3]; exact e1
+      · exact e3
+  · simp only [hji, ↓reduceIte] at hv'
+    exact h.2 i v v' hv hv'
+
+theorem queueView_ive (cfg : Config) (cur : Nat) (vals w : List Validator) (j : Nat) (h : QueueView cur vals w) :
+    QueueView cur vals (initiate_validator_exit_pure cfg cur w j) := by
+  rw [ive_unfold]
+  cases hj : w[j]? with
+  | none => exact h
+  | some u =>
+    simp only []
+    split
+    · exact h
+    · exact queueView_set cur vals w j u _ h hj rfl (Or.inl rfl)
+
+theorem queueView_first_loop (cfg : Config) (cur : Nat) (vals : List Validator) :
+    QueueView cur vals (registry_eligibility_and_ejections_pure cfg cur vals) := by
+  unfold registry_eligibility_and_ejections_pure
+  refine foldl_preserves (fun (w : List Validator) => QueueView cur vals w) _ _ _ ?_ ?_
+  · exact ⟨rfl, fun i v v' hv hv' => by rw [hv] at hv'; injection hv' with e; subst e; exact ⟨rfl, Or.inl rfl⟩⟩
+  · intro w j hw
+    cases hj : w[j]? with
+    | none => simpa using hw
+    | some u =>
+      simp only []
+      have h1 : QueueView cur vals (if is_eligible_for_activation_queue cfg u = true then
+          w.set j { u with activation_eligibility_epoch := cur + 1 } else w) := by
+        split
+        · rename_i he
+          refine queueView_set cur vals w j u _ hw hj rfl ?_
+          right
+          unfold is_eligible_for_activation_queue at he
+          simp only [Bool.and_eq_true, beq_iff_eq] at he
+          exact ⟨he.1, rfl⟩
+        · exact hw
+      split
+      · exact queueView_ive cfg cur vals _ j h1
+      · exact h1
+
+theorem mergeSort_congr (le le' : Nat → Nat → Bool) (L : List Nat)
+    (hagree : ∀ a b, a ∈ L → b ∈ L → le a b = le' a b)
+    (trans : ∀ a b c, le a b = true → le b c = true → le a c = true) (total : ∀ a b, (le a b || le b a) = true)
+    (trans' : ∀ a b c, le' a b = true → le' b c = true → le' a c = true) (total' : ∀ a b, (le' a b || le' b a) = true)
+    (antisymm : ∀ a b, le a b = true → le b a = true → a = b) :
+    L.mergeSort le = L.mergeSort le' := by
+  apply List.Perm.eq_of_pairwise (le := fun a b => le a b = true)
+  · intro a b _ _ h1 h2; exact antisymm a b h1 h2
+  · exact List.pairwise_mergeSort trans total L
+  · have h := List.pairwise_mergeSort trans' total' L
+    refine List.Pairwise.imp_of_mem ?_ h
+    intro a b ha hb hab
+    rw [hagree a b (List.mem_mergeSort.mp ha) (List.mem_mergeSort.mp hb)]; exact hab
+  · exact (List.mergeSort_perm L le).trans (List.mergeSort_perm L le').symm
+
+/-- the activation queue of the registry after the first loop is the queue of the registry before it -/
+theorem activation_queue_first_loop (cur fin : Nat) (vals w : List Validator) (h : QueueView cur vals w)
+    (hfin : fin ≤ cur) (hcur : cur < FAR_FUTURE_EPOCH) :
+    activation_queue_pure fin w = activation_queue_pure fin vals := by
+  unfold activation_queue_pure
+  have hget : ∀ i, i < vals.length → ∃ v v', vals[i]? = some v ∧ w[i]? = some v' := by
+    intro i hi
+    have hi' : i < w.length := by rw [h.1]; exact hi
+    exact ⟨vals[i], w[i], List.getElem?_eq_getElem hi, List.getElem?_eq_getElem hi'⟩
+  simp only []
+  generalize hA : List.filter _ (List.range w.length) = A
+  generalize hB : List.filter _ (List.range vals.length) = B
+  have hAB : A = B := by
+    rw [← hA, ← hB, h.1]
+    apply List.filter_congr
+    intro i hi
+    obtain ⟨v, v', hv, hv'⟩ := hget i (List.mem_range.mp hi)
+    obtain ⟨h1, h2⟩ := h.2 i v v' hv hv'
+    simp only [hv, hv', h1]
+    rcases h2 with e | ⟨e1, e2⟩
+    · rw [e]
+    · have a1 : ¬ v'.activation_eligibility_epoch ≤ fin := by omega
+      have a2 : ¬ v.activation_eligibility_epoch ≤ fin := by omega
+      simp [a1, a2]
+  rw [hAB]
+  apply mergeSort_congr
+  · intro a b ha hb
+    have key : ∀ c, c ∈ B →
+        (w.getD c default).activation_eligibility_epoch = (vals.getD c default).activation_eligibility_epoch := by
+      intro c hc
+      rw [← hB] at hc
+      obtain ⟨hc1, hc2⟩ := List.mem_filter.mp hc
+      obtain ⟨v, v', hv, hv'⟩ := hget c (List.mem_range.mp hc1)
+      simp only [hv, Bool.and_eq_true, decide_eq_true_eq] at hc2
+      obtain ⟨_, h2⟩ := h.2 c v v' hv hv'
+      have g1 : w.getD c default = v' := by simp [List.getD, hv']
+      have g2 : vals.getD c default = v := by simp [List.getD, hv]
+      rw [g1, g2]
+      rcases h2 with e | ⟨e1, _⟩
+      · exact e
+      · omega
+    unfold queueLe
+    rw [key a ha, key b hb]
+  · exact queueLe_trans w
+  · exact queueLe_total w
+  · exact queueLe_trans vals
+  · exact queueLe_total vals
+  · exact queueLe_antisymm w
+
+/-- the first loop does not change who is active in the current epoch (exits are assigned to later epochs) -/
+theorem first_loop_active_same (cfg : Config) (cur : Nat) (vals : List Validator) :
+    (registry_eligibility_and_ejections_pure cfg cur vals).map (is_active_validator · cur) =
+      vals.map (is_active_validator · cur) := by
+  unfold registry_eligibility_and_ejections_pure
+  refine foldl_preserves (fun (w : List Validator) => w.map (is_active_validator · cur) = vals.map (is_active_validator · cur)) _ _ _ rfl ?_
+  intro w j hw
+  cases hj : w[j]? with
+  | none => simpa using hw
+  | some u =>
+    simp only []
+    have h1 : (if is_eligible_for_activation_queue cfg u = true then
+        w.set j { u with activation_eligibility_epoch := cur + 1 } else w).map (is_active_validator · cur) =
+        vals.map (is_active_validator · cur) := by
+      split
+      · rw [map_set_same (is_active_validator · cur) w j u { u with activation_eligibility_epoch := cur + 1 } hj rfl]; exact hw
+      · exact hw
+    split
+    · rename_i hact
+      simp only [Bool.and_eq_true, decide_eq_true_eq] at hact
+      rw [ive_unfold]
+      generalize hW : (if is_eligible_for_activation_queue cfg u = true then
+        w.set j { u with activation_eligibility_epoch := cur + 1 } else w) = W at h1 ⊢
+      cases hWj : W[j]? with
+      | none => exact h1
+      | some u' =>
+        simp only []
+        split
+        · exact h1
+        · rename_i hfar
+          have hu' : is_active_validator u' cur = true := by
+            -- `W[j]` is `u` up to the eligibility epoch
+            have : u'.activation_epoch = u.activation_epoch ∧ u'.exit_epoch = u.exit_epoch := by
+              rw [← hW] at hWj
+              split at hWj
+              · obtain ⟨hi, _⟩ := List.getElem?_eq_some_iff.mp hj
+                simp only [List.getElem?_set, ↓reduceIte, hi, Option.some.injEq] at hWj
+                subst hWj; exact ⟨rfl, rfl⟩
+              · rw [hj] at hWj; injection hWj with e; subst e; exact ⟨rfl, rfl⟩
+            unfold is_active_validator at hact ⊢
+            rw [this.1, this.2]; exact hact.1
+          rw [map_set_same _ W j u' _ hWj ?_]; exact h1
+          have hcur := (next_ge cfg cur W).2
+          unfold is_active_validator exited at *
+          simp only [Bool.and_eq_true, decide_eq_true_eq] at hu' ⊢
+          simp [hu'.1, hcur, hu'.2]
+    · exact h1
+
+theorem churn_limit_first_loop (cfg : Config) (cur : Nat) (vals : List Validator) :
+    churn_limit_of cfg (registry_eligibility_and_ejections_pure cfg cur vals) cur = churn_limit_of cfg vals cur := by
+  have h := first_loop_active_same cfg cur vals
+  unfold churn_limit_of
+  have : ∀ l : List Validator, (l.filter (is_active_validator · cur)).length =
+      ((l.map (is_active_validator · cur)).filter id).length := by
+    intro l; rw [List.filter_map, List.length_map]; rfl
+  rw [this, this, h]
+
 end Zrnt.Proofs.Lemmas
